@@ -13,17 +13,49 @@ theorem verifyAccess_readonly_write (cfg : Cfg) (h : cfg.readonly = true) (b : B
     verifyAccess cfg b w perm act obj = some "AccessDenied" := by
   simp [verifyAccess, h, hp]
 
+theorem batch_readonly (cfg : Cfg) (h : cfg.readonly = true) (bk : Bucket) (w : Who) (keys : List (Bytes × Bytes)) (act : Bytes) :
+    ((if keys.isEmpty then [[]] else keys.map (·.1)).findSome? fun k => verifyAccess cfg bk w .write act k)
+      = some "AccessDenied" := by
+  split
+  · simp [verifyAccess_readonly_write cfg h bk w .write rfl]
+  · rename_i hne
+    cases keys with
+    | nil => simp at hne
+    | cons k ks => simp [verifyAccess_readonly_write cfg h bk w .write rfl]
+
 theorem guard_some (e : String) (s : State) (k : Unit → State × Resp) : guarded (some e) s k = (s, errR e) := rfl
 
 theorem withBucket_fst (s : State) (b : Bytes) (k : Bucket → State × Resp)
     (hk : ∀ bk, (k bk).1 = s) : (withBucket s b k).1 = s := by
   unfold withBucket; split <;> simp [hk]
 
-theorem guard_fst (c : Option String) (s : State) (k : Unit → State × Resp)
+theorem guarded_fst (c : Option String) (s : State) (k : Unit → State × Resp)
     (hk : c = none → (k ()).1 = s) : (guarded c s k).1 = s := by
   unfold guarded; split
   · rfl
   · exact hk rfl
+
+theorem withLockedVersion_fst (cfg : Cfg) (s : State) (bk : Bucket) (k vid : Bytes)
+    (f : Ver → List Ver → List Ver → State × Resp) (hf : ∀ v r p, (f v r p).1 = s) :
+    (withLockedVersion cfg s bk k vid f).1 = s := by
+  unfold withLockedVersion
+  simp only
+  repeat (first | rfl | exact hf _ _ _ | split)
+
+/-- discharges `(…).1 = s` for a handler body under the read-only switch: peel `withBucket` /
+`guarded`, refute a write guard that claims to have passed, split the remaining reads -/
+macro "ro_auto" cfg:ident h:ident : tactic => `(tactic| (
+  repeat (first
+    | rfl
+    | (apply withBucket_fst; intro _)
+    | (apply withLockedVersion_fst; intro _ _ _)
+    | (apply guarded_fst; intro hnone;
+       first
+         | (rw [verifyAccess_readonly_write $cfg $h _ _ _ rfl] at hnone; cases hnone; done)
+         | (rw [batch_readonly $cfg $h] at hnone; cases hnone; done)
+         | (simp [$h:ident] at hnone; done)
+         | skip)
+    | split)))
 
 /-- **No request changes anything when the gateway runs read-only** — whoever sends it (root and
 admins included), whatever the state, for every operation of the model. -/
@@ -33,94 +65,13 @@ theorem readonly_no_mutation (cfg : Cfg) (h : cfg.readonly = true) (s : State) (
   split
   · rfl
   · rename_i w _
-    cases hop : r.op <;> simp only [handle]
-    case createBucket b acl own lock validName =>
-      simp only [h]
-      split <;> simp
-    case deleteBucket b =>
-      apply withBucket_fst; intro bk
-      simp [verifyAccess_readonly_write cfg h bk w .write rfl, guard_some]
-    case headBucket b =>
-      apply withBucket_fst; intro bk; apply guard_fst; intro _; rfl
-    case putBucketPolicy b p valid =>
-      apply withBucket_fst; intro bk
-      simp [verifyAccess_readonly_write cfg h bk w .write rfl, guard_some]
-    case getBucketPolicy b =>
-      apply withBucket_fst; intro bk; apply guard_fst; intro _; split <;> rfl
-    case deleteBucketPolicy b =>
-      apply withBucket_fst; intro bk
-      simp [verifyAccess_readonly_write cfg h bk w .write rfl, guard_some]
-    case putBucketAcl b acl =>
-      apply withBucket_fst; intro bk
-      split
-      · rfl
-      · simp [verifyAccess_readonly_write cfg h bk w .writeAcp rfl, guard_some]
-    case getBucketAcl b =>
-      apply withBucket_fst; intro bk; apply guard_fst; intro _; rfl
-    case putBucketTagging b tags =>
-      apply withBucket_fst; intro bk
-      simp [verifyAccess_readonly_write cfg h bk w .write rfl, guard_some]
-    case getBucketTagging b =>
-      apply withBucket_fst; intro bk; apply guard_fst; intro _; split <;> rfl
-    case deleteBucketTagging b =>
-      apply withBucket_fst; intro bk
-      simp [verifyAccess_readonly_write cfg h bk w .write rfl, guard_some]
-    case putOwnership b o =>
-      apply withBucket_fst; intro bk
-      simp [verifyAccess_readonly_write cfg h bk w .write rfl, guard_some]
-    case getOwnership b =>
-      apply withBucket_fst; intro bk; apply guard_fst; intro _; split <;> rfl
-    case deleteOwnership b =>
-      apply withBucket_fst; intro bk
-      simp [verifyAccess_readonly_write cfg h bk w .write rfl, guard_some]
-    case putVersioning b e =>
-      apply withBucket_fst; intro bk
-      simp [verifyAccess_readonly_write cfg h bk w .write rfl, guard_some]
-    case getVersioning b =>
-      apply withBucket_fst; intro bk; apply guard_fst; intro _
-      split
-      · rfl
-      · split <;> rfl
-    case putObject b k p nv =>
-      apply withBucket_fst; intro bk
-      simp [verifyAccess_readonly_write cfg h bk w .write rfl, guard_some]
-    case getObject b k vid =>
-      apply withBucket_fst; intro bk; apply guard_fst; intro _; split <;> rfl
-    case headObject b k vid =>
-      apply withBucket_fst; intro bk; apply guard_fst; intro _; split <;> rfl
-    case deleteObject b k vid bp nv =>
-      apply withBucket_fst; intro bk
-      simp [verifyAccess_readonly_write cfg h bk w .write rfl, guard_some]
-    case deleteObjects b keys bp nvs =>
-      apply withBucket_fst; intro bk
-      have : ((if keys.isEmpty then [[]] else keys.map (·.1)).findSome? fun k => verifyAccess cfg bk w .write actDeleteObject k)
-          = some "AccessDenied" := by
-        split
-        · simp [verifyAccess_readonly_write cfg h bk w .write rfl]
-        · rename_i hne
-          cases keys with
-          | nil => simp at hne
-          | cons k ks => simp [verifyAccess_readonly_write cfg h bk w .write rfl]
-      rw [this]; rfl
-    case copyObject sb sk svid b k rep nv =>
-      apply withBucket_fst; intro bk
-      simp [h, guard_some]
-    case putObjectTagging b k t =>
-      apply withBucket_fst; intro bk
-      simp [verifyAccess_readonly_write cfg h bk w .write rfl, guard_some]
-    case getObjectTagging b k =>
-      apply withBucket_fst; intro bk; apply guard_fst; intro _
-      split
-      · split <;> rfl
-      · rfl
-    case deleteObjectTagging b k =>
-      apply withBucket_fst; intro bk
-      simp [verifyAccess_readonly_write cfg h bk w .write rfl, guard_some]
+    cases r.op <;> simp only [handle] <;> first | rfl | (simp only [h]; ro_auto cfg h) | ro_auto cfg h
 
 /-- the operations that only read -/
 def Op.isRead : Op → Bool
   | .headBucket .. | .listBuckets | .getBucketPolicy .. | .getBucketAcl .. | .getBucketTagging .. | .getOwnership ..
-  | .getVersioning .. | .getObject .. | .headObject .. | .getObjectTagging .. => true
+  | .getVersioning .. | .getObject .. | .headObject .. | .getObjectTagging .. | .listVersions .. | .getLockConfig ..
+  | .getRetention .. | .getLegalHold .. | .listParts .. | .listUploads .. => true
   | _ => false
 
 /-- read permissions are decided identically with and without the switch -/
@@ -141,8 +92,14 @@ theorem readonly_reads_unaffected (cfg : Cfg) (s : State) (c : Caller) (now : In
   | none => rfl
   | some w =>
     cases op <;> simp [Op.isRead] at hr <;>
-      simp only [handle, verifyAccess_readonly_read cfg true _ w .read rfl,
+      simp only [handle, withLockedVersion, verifyAccess_readonly_read cfg true _ w .read rfl,
         verifyAccess_readonly_read cfg true _ w .readAcp rfl]
+
+theorem withBucket_code (s : State) (b : Bytes) (k : Bucket → State × Resp)
+    (hk : ∀ bk, (k bk).2.code ≠ "") : (withBucket s b k).2.code ≠ "" := by
+  unfold withBucket; split
+  · exact errR_code_ne _
+  · exact hk _
 
 /-- **Every mutating request is refused** (never answered with success) in read-only mode. -/
 theorem readonly_refuses_mutations (cfg : Cfg) (h : cfg.readonly = true) (s : State) (c : Caller)
@@ -150,43 +107,21 @@ theorem readonly_refuses_mutations (cfg : Cfg) (h : cfg.readonly = true) (s : St
     (step cfg s ⟨c, op, now⟩).2.code ≠ "" := by
   simp only [step]
   cases resolve cfg s c with
-  | none => simp [errR_code_ne]
+  | none => exact errR_code_ne _
   | some w =>
-    have wb : ∀ (b : Bytes) (k : Bucket → State × Resp), (∀ bk, (k bk).2.code ≠ "") → (withBucket s b k).2.code ≠ "" := by
-      intro b k hk; unfold withBucket; split
-      · simp [errR_code_ne]
-      · exact hk _
     cases op <;> simp [Op.isRead] at hw <;> simp only [handle]
     case createBucket b acl own lock validName =>
       simp only [h]; split <;> simp [errR_code_ne]
-    case deleteBucket b => apply wb; intro bk; simp [verifyAccess_readonly_write cfg h bk w .write rfl, guard_some, errR_code_ne]
-    case putBucketPolicy b p v => apply wb; intro bk; simp [verifyAccess_readonly_write cfg h bk w .write rfl, guard_some, errR_code_ne]
-    case deleteBucketPolicy b => apply wb; intro bk; simp [verifyAccess_readonly_write cfg h bk w .write rfl, guard_some, errR_code_ne]
     case putBucketAcl b a =>
-      apply wb; intro bk; split
-      · simp [errR_code_ne]
+      apply withBucket_code; intro bk; split
+      · exact errR_code_ne _
       · simp [verifyAccess_readonly_write cfg h bk w .writeAcp rfl, guard_some, errR_code_ne]
-    case putBucketTagging b t => apply wb; intro bk; simp [verifyAccess_readonly_write cfg h bk w .write rfl, guard_some, errR_code_ne]
-    case deleteBucketTagging b => apply wb; intro bk; simp [verifyAccess_readonly_write cfg h bk w .write rfl, guard_some, errR_code_ne]
-    case putOwnership b o => apply wb; intro bk; simp [verifyAccess_readonly_write cfg h bk w .write rfl, guard_some, errR_code_ne]
-    case deleteOwnership b => apply wb; intro bk; simp [verifyAccess_readonly_write cfg h bk w .write rfl, guard_some, errR_code_ne]
-    case putVersioning b e => apply wb; intro bk; simp [verifyAccess_readonly_write cfg h bk w .write rfl, guard_some, errR_code_ne]
-    case putObject b k p nv => apply wb; intro bk; simp [verifyAccess_readonly_write cfg h bk w .write rfl, guard_some, errR_code_ne]
-    case deleteObject b k v bp nv => apply wb; intro bk; simp [verifyAccess_readonly_write cfg h bk w .write rfl, guard_some, errR_code_ne]
     case deleteObjects b keys bp nvs =>
-      apply wb; intro bk
-      have : ((if keys.isEmpty then [[]] else keys.map (·.1)).findSome? fun k => verifyAccess cfg bk w .write actDeleteObject k)
-          = some "AccessDenied" := by
-        split
-        · simp [verifyAccess_readonly_write cfg h bk w .write rfl]
-        · rename_i hne
-          cases keys with
-          | nil => simp at hne
-          | cons k ks => simp [verifyAccess_readonly_write cfg h bk w .write rfl]
-      rw [this]; simp [guard_some, errR]
-    case copyObject sb sk sv b k rep nv => apply wb; intro bk; simp [h, guard_some, errR_code_ne]
-    case putObjectTagging b k t => apply wb; intro bk; simp [verifyAccess_readonly_write cfg h bk w .write rfl, guard_some, errR_code_ne]
-    case deleteObjectTagging b k => apply wb; intro bk; simp [verifyAccess_readonly_write cfg h bk w .write rfl, guard_some, errR_code_ne]
+      apply withBucket_code; intro bk
+      rw [batch_readonly cfg h]; simp [guard_some, errR_code_ne]
+    all_goals
+      apply withBucket_code; intro bk
+      simp [verifyAccess_readonly_write cfg h bk w .write rfl, batch_readonly cfg h, guard_some, errR_code_ne, h]
 
 /-! Non-vacuity: a concrete state in which the same request succeeds read-write and is refused
 read-only. -/
